@@ -369,6 +369,112 @@ def desugar_match_letelse(data):
     return n
 
 
+def _pos(e):
+    return {k: e[k] for k in ("l", "c", "el", "ec")}
+
+
+def _call_of(e, name):
+    return e is not None and e.get("k") == "Call" and e["func"].get("k") == "Path" and e["func"]["path"].split("::")[-1] == name and len(e.get("args", [])) == 1
+
+
+def _ret_err(err, at):
+    pos = _pos(at)
+    ret = {"k": "Return", "expr": {"k": "Call", "func": {"k": "Path", "path": "Err", **pos}, "args": [err], **pos}, **pos}
+    return {"k": "Block", "label": None, "stmts": [{"k": "ExprStmt", "expr": ret, "semi": True, **pos}], **pos}
+
+
+def _untail_result(e):
+    """the value of a closure handed to `.and_then(..)` whose result is then tried with `?`, read in the caller: a tail `Ok(v)` is `v`,
+    a tail `Err(x)` is `return Err(x)`, any other tail `t` is `t?`.  In place; returns the new expression."""
+    k = e.get("k")
+    if k == "Block":
+        st = e.get("stmts") or []
+        if st and st[-1].get("k") == "ExprStmt" and not st[-1].get("semi"):
+            st[-1]["expr"] = _untail_result(st[-1]["expr"])
+        return e
+    if k == "If" and e.get("else") is not None:
+        e["then"] = _untail_result(e["then"])
+        e["else"] = _untail_result(e["else"])
+        return e
+    if k == "Match":
+        for a in e.get("arms", []):
+            a["body"] = _untail_result(a["body"])
+        return e
+    if _call_of(e, "Ok"):
+        return e["args"][0]
+    if _call_of(e, "Err"):
+        return {"k": "Return", "expr": e, **_pos(e)}
+    if A.diverges(e):
+        return e
+    return {"k": "Try", "expr": e, **_pos(e)}
+
+
+def desugar_okor_try(data):
+    """In place, on statements of a block:
+      `let P = R.ok_or(E)?;` / `R.ok_or_else(|| E)?`          is  `let Some(P) = R else { return Err(E) };`
+      `let P = R.ok_or(E).and_then(|Q| B)?;`                   is  `let Some(Q) = R else { return Err(E) }; let P = B';`
+          (B' = B with its tail `Ok(v)` read as `v`, its tail `Err(x)` as `return Err(x)`; only when B has no `return` of its own)
+      `let v = if let P(b) = R { b } else { <diverges> };`     is  `let P(v) = R else { <diverges> };`
+    -- the spellings of `take the payload or leave with this error`.  Returns the number rewritten."""
+    n = 0
+    roots = [data] if isinstance(data, dict) and "k" in data else list(data.values())
+    for root in roots:
+        for blk in list(A.walk(root)):
+            if blk.get("k") != "Block":
+                continue
+            out = []
+            for st in blk.get("stmts", []):
+                out.append(st)
+                if st.get("k") != "Local" or st.get("else") is not None or not isinstance(st.get("init"), dict):
+                    continue
+                init = st["init"]
+                # if-let form
+                if init.get("k") == "If" and init.get("else") is not None and init["cond"].get("k") == "Let" and A.diverges(init["else"]) and st["pat"].get("k") == "PIdent" and st["pat"].get("sub") is None:
+                    body = init["then"]
+                    while body.get("k") == "Block" and len(body.get("stmts", [])) == 1 and body["stmts"][0].get("k") == "ExprStmt" and not body["stmts"][0].get("semi"):
+                        body = body["stmts"][0]["expr"]
+                    pat = init["cond"]["pat"]
+                    binds = _pat_binds(pat)
+                    if body.get("k") == "Path" and "::" not in body["path"] and sum(1 for b in binds if b["name"] == body["path"]) == 1 and pat.get("k") != "POr":
+                        b = [b for b in binds if b["name"] == body["path"]][0]
+                        b["name"] = st["pat"]["name"]
+                        b["mut"] = bool(st["pat"].get("mut")) or bool(b.get("mut"))
+                        for y in A.walk(pat):
+                            if y.get("k") == "PField" and y.get("pat") is b:
+                                y["shorthand"] = False
+                        st["pat"] = pat
+                        st["else"] = _as_vblock(init["else"])
+                        st["init"] = init["cond"]["expr"]
+                        n += 1
+                    continue
+                if init.get("k") != "Try":
+                    continue
+                e = init["expr"]
+                then = None
+                if e.get("k") == "MethodCall" and e.get("method") == "and_then" and len(e.get("args", [])) == 1 and e["args"][0].get("k") == "Closure" and len(e["args"][0].get("params", [])) == 1 and not _has_return(e["args"][0]["body"]):
+                    then = e["args"][0]
+                    e = e["recv"]
+                if e.get("k") != "MethodCall" or e.get("method") not in ("ok_or", "ok_or_else") or len(e.get("args", [])) != 1:
+                    continue
+                err = e["args"][0]
+                if e["method"] == "ok_or_else":
+                    if err.get("k") != "Closure" or err.get("params"):
+                        continue
+                    err = err["body"]
+                pos = _pos(e)
+                if then is None:
+                    st["pat"] = {"k": "PTupleStruct", "path": "Some", "elems": [st["pat"]], **_pos(st["pat"])}
+                    st["init"] = e["recv"]
+                    st["else"] = _ret_err(err, e)
+                else:
+                    first = {"k": "Local", "pat": {"k": "PTupleStruct", "path": "Some", "elems": [then["params"][0]], **pos}, "init": e["recv"], "else": _ret_err(err, e), **_pos(st)}
+                    out.insert(len(out) - 1, first)
+                    st["init"] = _untail_result(then["body"])
+                n += 1
+            blk["stmts"] = out
+    return n
+
+
 def _strip_pos(x):
     if isinstance(x, dict):
         return {k: _strip_pos(v) for k, v in x.items() if k not in ("l", "c", "el", "ec", "ml", "mc", "o")}
